@@ -7,10 +7,14 @@ import (
 )
 
 // DATE family (C19): the real DateGenerator wrapper+kernel run through the catalogue.
-// ops:  DATE id d m y n          impl: id ok n (d m y doy)*n   |  id panic
-func init() { register("DATE", genDate) }
+// ops:  DATE id d m y n          impl: id ok n (d m y doy)*n   |  id panic <class>
+func init() {
+	register(&Family{Name: "DATE", Gen: genDate, Exec: execDate, Oracle: oracleDate})
+}
 
-func runDate(d, m, y, n int) string {
+func execDate(body string) string {
+	t := newTokenReader(body)
+	d, m, y, n := t.int(), t.int(), t.int(), t.int()
 	rc := &RunCase{Model: "DateGenerator", Cells: 1,
 		Params: [][]float64{{float64(d)}, {float64(m)}, {float64(y)}},
 		Inputs: [][][]float64{{make([]float64, n)}}}
@@ -24,32 +28,36 @@ func runDate(d, m, y, n int) string {
 	return b.String()
 }
 
+// oracle: Go's time package as an independent proleptic Gregorian calendar
+func oracleDate(c *Ctx, id int, body, impl string) {
+	t := newTokenReader(body)
+	d, m, y, n := t.int(), t.int(), t.int(), t.int()
+	if y < 1 || y > 9000 || m < 1 || m > 12 || d < 1 || d > time.Date(y, time.Month(m)+1, 0, 0, 0, 0, 0, time.UTC).Day() {
+		return // not a valid start date: the property says nothing
+	}
+	c.Stats.OracleEvals++
+	toks := strings.Fields(impl)
+	if len(toks) < 2 || toks[0] != "ok" {
+		c.OracleFail(id, "DateGenerator", "valid start date but the run did not complete: "+impl, body)
+		return
+	}
+	toks = toks[2:]
+	t0 := time.Date(y, time.Month(m), d, 0, 0, 0, 0, time.UTC)
+	for k := 0; k < n; k++ {
+		tt := t0.AddDate(0, 0, k)
+		exp := fmt.Sprintf("%d %d %d %d", tt.Day(), int(tt.Month()), tt.Year(), tt.YearDay())
+		got := strings.Join(toks[4*k:4*k+4], " ")
+		if exp != got {
+			c.OracleFail(id, "DateGenerator", fmt.Sprintf("step %d: calendar says %s, generator emitted %s", k, exp, got), body)
+			return
+		}
+	}
+}
+
 func genDate(c *Ctx) {
-	c.Stats.Rule = "start dates × run lengths through sim.Catalog[DateGenerator]; non-trivial = run crosses at least one month end; distinct by (d,m,y,n)"
+	c.Stats.Rule = "start dates × run lengths through sim.Catalog[DateGenerator]; non-trivial = run crosses at least one month end; distinct by (d,m,y,n); plus a malformed stream (month 0/13, day 0/32)"
 	emit := func(d, m, y, n int) {
-		out := runDate(d, m, y, n)
-		// oracle: Go's time package as an independent proleptic Gregorian calendar
-		ok := true
-		if y >= 1 && y <= 9000 {
-			t0 := time.Date(y, time.Month(m), d, 0, 0, 0, 0, time.UTC)
-			toks := strings.Fields(out)[2:]
-			for k := 0; k < n; k++ {
-				tt := t0.AddDate(0, 0, k)
-				exp := fmt.Sprintf("%d %d %d %d", tt.Day(), int(tt.Month()), tt.Year(), tt.YearDay())
-				got := strings.Join(toks[4*k:4*k+4], " ")
-				if exp != got {
-					ok = false
-					id := c.Emit(fmt.Sprintf("%d %d %d %d", d, m, y, n), out, true)
-					c.OracleFail(id, "DateGenerator", fmt.Sprintf("step %d: expected %s got %s", k, exp, got), fmt.Sprintf("%d %d %d %d", d, m, y, n))
-					break
-				}
-			}
-			c.Stats.OracleEvals++
-		}
-		if ok {
-			crosses := d+n > 28
-			c.Emit(fmt.Sprintf("%d %d %d %d", d, m, y, n), out, crosses)
-		}
+		c.Do(fmt.Sprintf("%d %d %d %d", d, m, y, n), d+n > 28)
 		if d+n > 28 {
 			c.Stats.Count("crosses_month_end")
 		}
@@ -60,20 +68,17 @@ func genDate(c *Ctx) {
 			c.Stats.Count("starts_in_feb")
 		}
 	}
-	if c.Replay != nil {
-		for _, l := range c.Replay {
-			t := newTokenReader(l)
-			t.next(); t.next()
-			emit(t.int(), t.int(), t.int(), t.int())
-		}
-		return
-	}
 	dim := func(m, y int) int {
 		return time.Date(y, time.Month(m)+1, 0, 0, 0, 0, 0, time.UTC).Day()
 	}
 	// corpus of edge cases first
 	for _, e := range [][4]int{{28, 2, 1900, 3}, {28, 2, 2000, 3}, {31, 12, 1999, 2}, {29, 2, 2004, 2}, {1, 1, 1, 400}, {28, 2, 2100, 2}, {30, 4, 2023, 2}, {31, 12, 2400, 367}} {
 		emit(e[0], e[1], e[2], e[3])
+	}
+	// malformed stream: the code panics (month index) or free-runs; model must agree
+	for _, e := range [][4]int{{1, 13, 2000, 2}, {1, 0, 2000, 2}, {0, 1, 2000, 3}, {32, 1, 2001, 3}, {31, 12, 2000, 0}, {5, 14, 1999, 1}, {40, 12, 1999, 2}} {
+		emit(e[0], e[1], e[2], e[3])
+		c.Stats.Count("malformed")
 	}
 	if c.Tier == "thorough" {
 		// every day of a full 400-year cycle as a start date
